@@ -28,7 +28,7 @@ ASSUMPTIONS = [
     "output files are always written to an explicit path outside the payload",
 ]
 BUDGET = {
-    "quick": {"examples": 450, "workers": 8, "time_cap": 70},
+    "quick": {"examples": 700, "workers": 8, "time_cap": 70},
     "thorough": {"examples": 12000, "workers": 14, "time_cap": 900},
 }
 SPELLINGS = ["abs", "rel", "dot-rel", "inner-dotdot", "double-sep", "trailing-sep", "trailing-dot", "sub-dotdot", "cwd-dot"]
